@@ -480,8 +480,11 @@ def argsort(a, axis=-1, kind=None):
     n = s.shape[0]
     pi = vc.fresh_fn('pi', IntS, IntS)
     pinv = vc.fresh_fn('pinv', IntS, IntS)
+    from .core import forall2_range
     vc.assume(forall_range(0, n, lambda i: z3.And(0 <= pi(i), pi(i) < n, pinv(pi(i)) == i, 0 <= pinv(i), pinv(i) < n, pi(pinv(i)) == i), 'i'),
-              forall_range(0, n, lambda j: forall_range(0, j + 1, lambda i: s.at(pi(i)) <= s.at(pi(j)), 'i'), 'j'))
+              forall2_range(0, n, lambda i, j: z3.Implies(i <= j, s.at(pi(i)) <= s.at(pi(j)))),
+              # the same fact read through the inverse permutation (rank form); implied by the two lines above
+              forall2_range(0, n, lambda i, j: z3.Implies(pinv(i) <= pinv(j), s.at(i) <= s.at(j))))
     p = SPerm(pi, pinv, n, of=s)
     vc.libcall('np.argsort', p)
     return p
@@ -535,7 +538,85 @@ def isnan(x):
 def where(cond, *a):
     if len(a) == 2:
         return ew_where(cond, a[0], a[1])
-    raise OutOfSubset('np.where(cond) index form')
+    if a:
+        raise OutOfSubset('np.where with 2 arguments')
+    # index form: a 1-tuple holding the increasing indices of the True entries (the select bijection)
+    c = asarray(cond)
+    if c.ndim != 1 or c.kind != 'bool':
+        raise OutOfSubset('np.where(cond) for rank %d / kind %s' % (c.ndim, c.kind))
+    k, sel, rank, m = c.select()
+    out = SArr(Cell(lambda j: sel(j), (k,), 'int'))
+    cur().libcall('np.where', dict(mask=m, k=k, sel=sel, rank=rank, res=out, inst=c.sel_inst))
+    return (out,)
+
+
+def logical_and(a, b):
+    if isinstance(a, SArr) or isinstance(b, SArr):
+        return ew2(a, b, lambda p, q: z3.And(p, q), 'bool')
+    return SBool(z3.And(lift(a).t, lift(b).t))
+
+
+def logical_or(a, b):
+    if isinstance(a, SArr) or isinstance(b, SArr):
+        return ew2(a, b, lambda p, q: z3.Or(p, q), 'bool')
+    return SBool(z3.Or(lift(a).t, lift(b).t))
+
+
+def logical_not(a):
+    if isinstance(a, SArr):
+        return ew1(a, lambda p: z3.Not(p))
+    return SBool(z3.Not(lift(a).t))
+
+
+def square(x):
+    return x * x
+
+
+def cumsum(a, axis=None):
+    a = asarray(a)
+    if a.ndim != 1:
+        raise OutOfSubset('cumsum rank %d' % a.ndim)
+    s = a.snapshot()
+    real = (lambda t: z3.ToReal(t)) if s.kind == 'int' else (lambda t: t)
+    ps, tot = _prefix_sum_1d(s, s.shape[0], lambda i: real(s.at(i)))
+    out = SArr(Cell(lambda i: ps(i + 1), (s.shape[0],), 'real'))
+    cur().libcall('np.cumsum', dict(arr=s, res=out, ps=ps))
+    return out
+
+
+def insert(arr, obj, values, axis=None):
+    a = asarray(arr).snapshot()
+    if a.ndim != 1 or not (isinstance(obj, int) and obj == 0):
+        raise OutOfSubset('np.insert other than a scalar at position 0 of a 1-d array')
+    v = _real(values)
+    real = (lambda t: z3.ToReal(t)) if a.kind == 'int' else (lambda t: t)
+    out = SArr(Cell(lambda i: z3.If(i == 0, v, real(a.at(i - 1))), (z3.simplify(a.shape[0] + 1),), 'real'))
+    cur().libcall('np.insert', out)
+    return out
+
+
+def average(a, axis=None, weights=None):
+    a = asarray(a)
+    if weights is None:
+        return mean(a, axis=axis)
+    w = asarray(weights)
+    if a.ndim == 1 and w.ndim == 1:
+        cur().oblige('call-pre[average: weights and data have equal length]', a.shape[0] == w.shape[0])
+        num = sum(a * w)
+        den = sum(w)
+        cur().oblige('call-pre[average: weights sum to non-zero]', den.t != 0)
+        return SReal(num.t / den.t)
+    if a.ndim == 2 and w.ndim == 1 and axis in (0, -2):
+        cur().oblige('call-pre[average: weights and data have equal length]', a.shape[0] == w.shape[0])
+        ws = w.snapshot()
+        asn = a.snapshot()
+        prod_ = SArr(Cell(lambda i, j: asn.at(i, j) * ws.at(i), asn.shape, 'real'))
+        num = sum(prod_, axis=0)
+        den = sum(w)
+        cur().oblige('call-pre[average: weights sum to non-zero]', den.t != 0)
+        nn = num.snapshot()
+        return SArr(Cell(lambda j: nn.at(j) / den.t, nn.shape, 'real'))
+    raise OutOfSubset('np.average rank %d/%d axis %r' % (a.ndim, w.ndim, axis))
 
 
 def ew_where(c, x, y):
@@ -558,6 +639,11 @@ def dot(a, b):
     if a.ndim == 2 and b.ndim == 1:
         cur().oblige('call-pre[dot: inner dimensions]', a.shape[1] == b.shape[0])
         return sum(a * b, axis=1)
+    if a.ndim == 1 and b.ndim == 2:
+        cur().oblige('call-pre[dot: inner dimensions]', a.shape[0] == b.shape[0])
+        asn, bsn = a.snapshot(), b.snapshot()
+        prod_ = SArr(Cell(lambda i, j: _to_real(asn.at(i), asn.kind) * _to_real(bsn.at(i, j), bsn.kind), bsn.shape, 'real'))
+        return sum(prod_, axis=0)
     raise OutOfSubset('dot %d-d x %d-d' % (a.ndim, b.ndim))
 
 
@@ -621,7 +707,7 @@ class _Module:
                  asarray=asarray, asanyarray=asanyarray, array=array, atleast_1d=atleast_1d, atleast_2d=atleast_2d,
                  transpose=transpose, squeeze=squeeze, expand_dims=expand_dims, reshape=reshape, column_stack=column_stack,
                  concatenate=concatenate, vstack=vstack, hstack=hstack, sum=sum, mean=mean, all=all, any=any, argsort=argsort,
-                 argmin=argmin, clip=clip, isfinite=isfinite, isinf=isinf, isnan=isnan, where=where, dot=dot, prod=prod,
+                 argmin=argmin, clip=clip, logical_and=logical_and, logical_or=logical_or, logical_not=logical_not, square=square, cumsum=cumsum, insert=insert, average=average, isfinite=isfinite, isinf=isinf, isnan=isnan, where=where, dot=dot, prod=prod,
                  minimum=minimum, maximum=maximum, abs=abs_, absolute=abs_, ndim=ndim, shape=shape, ndarray=ndarray,
                  inf=SReal(INF), pi=_np.pi, newaxis=None, float64=float, int64=int, bool_=bool,
                  )
